@@ -221,16 +221,14 @@ def nontrivial(ops, out):
 def rec_f32(info):
     return False
 
+COMPS = ["queue"]
+
+def streams(tier):
+    n = 20000 if tier == "quick" else 400000
+    return [(core.Stream("queue-mem", "queue", gen, predicate, nontrivial, keep_prefix=2), n)]
+
 def run(r):
-    ok = r.prove(MODULE, THEOREMS)
-    rc, out = core.build_go(r.log)
-    if rc != 0:
-        r.violation("go-build", "# harness does not build against /repo any more\n" + out[-3000:], False, "go build failed")
-        return r.finish(rule=RULE)
-    n = 20000 if r.tier == "quick" else 400000
-    s = core.Stream("queue-mem", ["queue"], ["queue"], gen, predicate, nontrivial, keep_prefix=2)
-    r.correspond(s, n)
-    return r.finish(rule=RULE, assumptions=ASSUME)
+    return core.standard_run(r, __import__(__name__, fromlist=["x"]))
 
 RULE = ("random histories of new/init/add/read/readinflight/remove/replace/close on persistence/queue/mem through its public API "
         "(capacity 1-5, QoS mix, expiry none/past/future, sizes around the read limit, in-flight expiry off/1ns/1h, 1-120 ops + final drain), "
